@@ -378,6 +378,19 @@ def content(m):
     }
 
 
+def _ceq(a, b):
+    """Content equality that never raises (a defect may leave arrays or objects where numbers belong)."""
+    import json
+
+    def canon(x):
+        return json.dumps(x, sort_keys=True, default=repr)
+
+    try:
+        return canon(a) == canon(b)
+    except Exception:  # noqa: BLE001
+        return repr(a) == repr(b)
+
+
 def cache_digest(m):
     c = m._cache
     if c is None:
@@ -611,10 +624,14 @@ def check(case):
     if eval_failure:
         expect = None
     # 2. a rejected edit changes nothing
-    if raised is not None and not eval_failure and after != before:
-        diff = [k for k in before if before[k] != after[k]]
+    if raised is not None and not eval_failure and not _ceq(after, before):
+        diff = [k for k in before if not _ceq(before[k], after[k])]
         return bad("rejected-edit-changed-model", "rejected-but-changed",
                    f"{type(raised).__name__} was raised but {diff} changed")
+    # 2b. a query is not an edit: the model's content is what it was
+    if opname.startswith("Q") and not _ceq(after, before):
+        diff = [k for k in before if not _ceq(before[k], after[k])]
+        return bad("query-changed-model", "query-changed-content", f"a query changed {diff}: before {str([before[k] for k in diff])[:300]} after {str([after[k] for k in diff])[:300]}")
     # 3a. acceptance
     if expect == "reject" and raised is None:
         return bad("bad-edit-accepted", "name-clash-accepted", "edit must be rejected (name in use / time / unknown target) but was accepted")
